@@ -108,12 +108,12 @@ impl super::Bundle {
                 })?
         }
 
-        // All other data except the UTXO and proprietary fields in the input should be
-        // cleared from the PSBT. The UTXO should be kept to allow Transaction Extractors
-        // to verify the final network serialized transaction.
+        // All other data except the UTXO, the lock time requirements and proprietary fields
+        // in the input should be cleared from the PSBT. The UTXO should be kept to allow
+        // Transaction Extractors to verify the final network serialized transaction. The
+        // lock time requirements are kept because the transaction's lock time (which the
+        // signatures commit to) is determined from them.
         for input in &mut self.inputs {
-            input.required_time_lock_time = None;
-            input.required_height_lock_time = None;
             input.redeem_script = None;
             input.partial_signatures.clear();
             input.bip32_derivation.clear();
